@@ -351,7 +351,7 @@ def run(ctx):
 
     def opts_fn(i, r):
         return jsgen.Opts(clean=(i % 2 == 0), max_stmts=3, max_depth=4, unicode_idents=(i % 5 == 1), string_continuations=(i % 3 == 0))
-    progs = work.Programs(ctx, ctx.pick(55, 1100), opts_fn=opts_fn, layouts=('space',))
+    progs = work.Programs(ctx, ctx.per_shard(55, 1100), opts_fn=opts_fn, layouts=('space',))
     step = ctx.pick(2, 1)
     for text, meta in progs:
         toks = meta['toks']
